@@ -18,8 +18,8 @@ use crate::seq::Seq;
 use crate::world::*;
 use std::time::Duration;
 
-const DEADLINES_QUICK: [i32; 5] = [0, 9, 11, 60, 601];
-const DEADLINES_ALL: [i32; 11] = [-5, 0, 1, 9, 10, 11, 17, 60, 600, 601, 3600];
+const DEADLINES_QUICK: [i32; 7] = [0, 9, 11, 60, 601, 2_592_000, i32::MAX];
+const DEADLINES_ALL: [i32; 14] = [-5, 0, 1, 9, 10, 11, 17, 60, 600, 601, 3600, 1_000_000, 2_592_000, i32::MAX];
 const KINDS: [&str; 3] = ["probe", "blocked", "stream"];
 
 fn deadlines(p: &EpParams) -> Vec<i32> {
